@@ -95,7 +95,8 @@ def table(res, gen_text, clauses):
     vr = j.get('verification-results', {})
     if vr.get('encountered-vir-error'):
         for d in res.get('diags', []):
-            if d.get('level') == 'error' and 'aborting' not in d.get('message', ''):
+            # (ordinary verification failures of other modules are not what stopped the verifier)
+            if d.get('level') == 'error' and 'aborting' not in d.get('message', '') and not re.search(r'postcondition not satisfied|precondition not satisfied|assertion failed|invariant not satisfied|possible arithmetic|underflow/overflow|unreachable|rlimit|resource limit|decreases not satisfied|might not terminate', d.get('message', '')):
                 sp = d.get('spans') or [{}]
                 out['fatal'].append('%s (generated line %s)' % (d.get('message'), sp[0].get('line_start')))
     # rustc level errors (an annotation that no longer type checks, a call to something that does not exist): nothing was verified
